@@ -21,13 +21,34 @@ VUL_NAME = {v: k for k, v in VUL.items()}
 PAIR = [Pair['NS'], Pair['EW']]
 
 
-def hands_from_owner(owner):
-    """owner: list of 52 seat indices (or None for absent) -> Hands"""
+HOW = ['constructor', 'hand attributes rebound after construction', 'hand sets changed in place after construction', 'copy.deepcopy',
+       'pickle round trip', 'copy.copy with hand attributes rebound on the copy']
+
+
+def hands_from_owner(owner, how=0):
+    """owner: list of 52 seat indices (or None for absent) -> Hands.  how: the way the object came to hold this deal (HOW) -
+    a deal is a deal however the caller arrived at it: the four hands are plain public attributes holding plain sets."""
+    import copy
+    import pickle
     hs = [set(), set(), set(), set()]
     for c, s in enumerate(owner):
         if s is not None:
             hs[s].add(CARD[c])
-    return Hands(north_hand=hs[0], east_hand=hs[1], south_hand=hs[2], west_hand=hs[3])
+    if how in (0, 3, 4):
+        H = Hands(north_hand=hs[0], east_hand=hs[1], south_hand=hs[2], west_hand=hs[3])
+        return H if how == 0 else copy.deepcopy(H) if how == 3 else pickle.loads(pickle.dumps(H))
+    other = [set(hs[2]), set(hs[3]), set(hs[0]), set(hs[1])]          # the deal turned half round: another deal
+    H = Hands(north_hand=other[0], east_hand=other[1], south_hand=other[2], west_hand=other[3])
+    if how == 2:
+        for held, want in zip((H.north, H.east, H.south, H.west), hs):
+            held.clear()
+            held.update(want)
+        return H
+    G = H if how == 1 else copy.copy(H)
+    G.north, G.east, G.south, G.west = hs
+    if how == 5:
+        assert [H.north, H.east, H.south, H.west] == other
+    return G
 
 
 def hands_to_ints(hands):
